@@ -4,15 +4,19 @@
 //! or a witness result.
 mod archive;
 mod capi;
+mod capiread;
 mod cli;
 mod comp;
+mod compstream;
 mod derive;
 mod format;
 mod confid;
 mod enc;
 mod fscomp;
+mod fsstack;
 mod fuzz;
 mod header;
+mod hdrsrc;
 mod history;
 mod histstack;
 mod integrity;
@@ -22,6 +26,7 @@ mod memdims;
 mod repair;
 mod util;
 mod writer;
+mod wrows;
 
 use serde_json::json;
 use util::*;
@@ -38,6 +43,10 @@ fn main() {
     }
     if args[1] == "c20-child" {
         capi::child_main();
+        return;
+    }
+    if args[1] == "c20r-child" {
+        capiread::child_main();
         return;
     }
     let seed: u64 = arg(&args, "--seed").and_then(|s| s.parse().ok()).unwrap_or(1);
@@ -80,6 +89,8 @@ fn main() {
         "c16" => cli::c16_cases(&mut rng, &tier, &mut out),
         "c16-symlink" => cli::c16_symlink_cases(&mut rng, &tier, &mut out),
         "c02" => repair::c02_cases(&mut rng, &tier, &mut out),
+        "c13-hdr" => hdrsrc::c13_hdr_cases(&mut rng, &tier, &mut out),
+        "c02-small" => hdrsrc::c02_small_cases(&mut rng, &tier, &mut out),
         "c02-comp" => fscomp::c02_comp_cases(&mut rng, &tier, &arg(&args, "--aspect").unwrap_or_default(), &mut out),
         "c05" => repair::c05_cases(&mut rng, &tier, &mut out),
         "c05-blocks" => repair::c05_blocks_cases(&mut rng, &tier, &mut out),
@@ -95,6 +106,7 @@ fn main() {
         }
         "c08-wit" => fuzz::wit_child(args.get(2).map(|s| s.as_str()).unwrap_or("")),
         "c20" => capi::c20_cases(&mut rng, &tier, &mut out),
+        "c20r" => capiread::c20r_cases(&mut rng, &tier, &mut out),
         "c15" => mem::c15_cases(&mut rng, &tier, &mut out),
         "c15-dims" => memdims::c15_dims_cases(&mut rng, &tier, &mut out),
         "c15-blocks" => memdims::c15_blocks_cases(&mut rng, &tier, &mut out),
@@ -103,6 +115,14 @@ fn main() {
         "c12-cli" => cli::c12_cli_cases(&mut rng, &tier, &mut out),
         "c13" => history::c13_cases(&mut rng, &tier, &mut out),
         "c14" => history::c14_cases(&mut rng, &tier, &mut out),
+        "c06-gcmdec" => wrows::c06_gcmdec_cases(&mut rng, &tier, &mut out),
+        "c13-sinkrows" => wrows::c13_sinkrows_cases(&mut rng, &tier, &mut out),
+        #[cfg(feature = "scaled")]
+        "c01-encw" => wrows::c01_encw_cases(&mut rng, &tier, &mut out),
+        #[cfg(feature = "scaled")]
+        "c13-encsink" => wrows::c13_encsink_cases(&mut rng, &tier, &mut out),
+        #[cfg(feature = "scaled")]
+        "c01-aw" => wrows::c01_aw_cases(&mut rng, &tier, &mut out),
         #[cfg(feature = "scaled")]
         "c11-comp" => comp::c11_comp_cases(&mut rng, &tier, &mut out),
         #[cfg(feature = "scaled")]
@@ -110,7 +130,7 @@ fn main() {
         #[cfg(feature = "scaled")]
         "c11-stack" => comp::c11_stack_cases(&mut rng, &tier, &mut out),
         #[cfg(feature = "scaled")]
-        "c08-stack" => comp::c08_stack_cases(&mut rng, &tier, &mut out),
+        "c08-stack" => compstream::c08_stack_cases(&mut rng, &tier, &mut out),
         #[cfg(feature = "scaled")]
         "c11-cw" => comp::c11_cw_cases(&mut rng, &tier, &mut out),
         #[cfg(feature = "scaled")]
